@@ -94,6 +94,8 @@ def gen_spec(rng, family=None):
             cps = [max(3, min(7, int(L / (2 * p["radius"] * 1.01)))) for L in lengths]
             cps = [min(c, rng.randint(3, 7)) for c in cps]
             p["cells"] = {"cells_per_side": cps, "layers": 1, "max_occupants": rng.choice([1, 2, 0]), "far": False}
+    p["chain_time"] *= 1 + math.pi * 1e-3
+    p["sampling_interval"] *= 1 + math.sqrt(3) * 1e-3
     return {"kind": "spheres", "family": family, "params": p}
 
 
@@ -123,6 +125,12 @@ def gen_molecule_spec(rng, k=None, switching=None):
          "end": 1e6, "scheduler": rng.choice(["heap_scheduler", "list_scheduler"]), "positions": positions,
          "initial_direction": rng.randrange(3), "initial_molecule": rng.randrange(n), "initial_atom": rng.randrange(k),
          "beta": rng.choice([1.0, 2.0])}
+    # all periods pairwise incommensurate: two state-changing events must never carry bit-identical times (the order of tied
+    # events is the scheduler's free choice and legitimately differs between two runs with different sets of pending events)
+    p["chain_time"] *= 1 + math.pi * 1e-3
+    p["switch_leaf"] *= 1 + math.e * 1e-3
+    p["switch_root"] *= 1 + math.sqrt(2) * 1e-3
+    p["sampling_interval"] *= 1 + math.sqrt(3) * 1e-3
     return {"kind": "molecules", "family": f"molecules{k}" + ("sw" if sw else ""), "params": p}
 
 
